@@ -106,7 +106,11 @@ Print Assumptions C07_netlist_clone_keeps_invariant.
    cables and child instances; the copy of each port / cable the images of its pins / wires; the
    copy of each instance references the image of the definition its source references; and the
    reference set of the copy of each definition consists exactly of the images of the instances
-   that reference the source. *)
+   that reference the source; and the connections are the images of the connections: the wire
+   pointer of each copied pin is the image of the wire pointer of its source, the outer-pin table of
+   each copied instance lists, in order, the images of the keys (inner pins) with the images of the
+   wires, and each copied wire lists, in order, the images of the pins its source lists (an outer
+   pin (x, i) becoming (M x, M i)). *)
 Theorem C07_netlist_clone_structure : forall ops n,
   let s := run ops init in
   kind_of s n = Some KNetlist -> Closed s n -> snd (fst (clone_netlist s n)) = None ->
